@@ -78,8 +78,8 @@ class VClass:
     def __init__(self, kind, mask):
         self.kind, self.mask = kind, mask
 
-    def denotes(self):
-        return self.mask if self.kind == "pos" else (U_MASK & ~self.mask)
+    def denotes(self, U=U_MASK):
+        return (self.mask & U) if self.kind == "pos" else (U & ~self.mask)
 
     def __repr__(self):
         return f"{self.kind}:{self.mask:04b}"
@@ -88,8 +88,9 @@ class VClass:
 class VennEval:
     """Interprets the bodies of RegexCharClass / InvertedRegexCharClass methods over region masks."""
 
-    def __init__(self, model):
+    def __init__(self, model, U=U_MASK):
         self.model = model
+        self.U = U      # inhabited Venn regions = the universe for this evaluation
 
     def run_method(self, cls, meth, self_val, other_val=None, depth=0):
         if depth > 4:
@@ -152,7 +153,7 @@ class VennEval:
                 if isinstance(n.op, ast.BitAnd):
                     return ("set", l[1] & r[1])
                 if isinstance(n.op, ast.Sub):
-                    return ("set", l[1] & ~r[1] & U_MASK)
+                    return ("set", l[1] & ~r[1] & self.U)
                 if isinstance(n.op, ast.BitXor):
                     return ("set", l[1] ^ r[1])
         if isinstance(n, ast.Compare) and len(n.ops) == 1:
@@ -160,17 +161,17 @@ class VennEval:
             op = n.ops[0]
             if isinstance(l, tuple) and l[0] == "set" and isinstance(r, tuple) and r[0] == "set":
                 if isinstance(op, ast.LtE):
-                    return (l[1] & ~r[1] & U_MASK) == 0
+                    return (l[1] & ~r[1] & self.U) == 0
                 if isinstance(op, ast.GtE):
-                    return (r[1] & ~l[1] & U_MASK) == 0
+                    return (r[1] & ~l[1] & self.U) == 0
                 if isinstance(op, ast.Eq):
-                    return l[1] == r[1]
+                    return (l[1] & self.U) == (r[1] & self.U)
             if isinstance(l, tuple) and l[0] == "len" and isinstance(r, int) and r == 256 and isinstance(op, ast.GtE):
-                return l[1] == U_MASK      # `len(x) >= 256` read as "x is the universe"
+                return (l[1] & self.U) == self.U      # `len(x) >= 256` read as "x is the universe"
         if isinstance(n, ast.UnaryOp) and isinstance(n.op, ast.Not):
             v = self._expr(n.operand, env, depth)
             if isinstance(v, tuple) and v[0] == "set":
-                return v[1] == 0
+                return (v[1] & self.U) == 0
             if isinstance(v, bool):
                 return not v
         if isinstance(n, ast.Call):
@@ -193,7 +194,7 @@ class VennEval:
                 recv = self._expr(f.value, env, depth)
                 if isinstance(recv, tuple) and recv[0] == "set" and f.attr == "isdisjoint" and len(n.args) == 1:
                     o = self._expr(n.args[0], env, depth)
-                    return (recv[1] & o[1]) == 0
+                    return (recv[1] & o[1] & self.U) == 0
                 if isinstance(recv, VClass):
                     cn = "InvertedRegexCharClass" if recv.kind == "neg" else "RegexCharClass"
                     arg = self._expr(n.args[0], env, depth) if n.args else None
